@@ -74,3 +74,20 @@ pub fn ikey_lt(a: &InternalKey, b: &InternalKey) -> bool {
     let (x, y): (&[u8], &[u8]) = (&a.user_key, &b.user_key);
     x < y || (x == y && a.seqno > b.seqno)
 }
+
+/// A `Version` with `levels` empty levels (0 = no levels at all: cheapest value whose table lookup
+/// yields nothing). `Version::new` builds 7 levels, which multiplies symex cost for harnesses that
+/// only need memtables or version identity.
+pub fn empty_version(id: u64, levels: usize) -> crate::version::Version {
+    let mut v = Vec::with_capacity(levels);
+    for _ in 0..levels {
+        v.push(crate::version::Level::empty());
+    }
+    crate::version::Version::from_levels(
+        id,
+        crate::TreeType::Standard,
+        v,
+        crate::version::BlobFileList::default(),
+        crate::blob_tree::FragmentationMap::default(),
+    )
+}
